@@ -225,6 +225,31 @@ func (r *Recorder) Factory(rootPath, subPath string, opts *multiapp.Options) (ap
 	return t, nil
 }
 
+// Remove is what is handed to store.Options.WithAppRemoveFunc (the index discards snapshot folders
+// through it): the removal is recorded, the files disappear from every later crash image.
+func (r *Recorder) Remove(rootPath, subPath string) error {
+	full := filepath.Join(rootPath, subPath)
+	rel, err := filepath.Rel(r.root, full)
+	if err != nil {
+		return err
+	}
+	r.mu.Lock()
+	defer r.mu.Unlock()
+	err = os.RemoveAll(full)
+	ev := Event{Kind: "remove", Log: rel}
+	for f := range r.shadow {
+		if filepath.Dir(f) == rel {
+			ev.Removed = append(ev.Removed, f)
+			delete(r.shadow, f)
+		}
+	}
+	sort.Strings(ev.Removed)
+	if r.enabled {
+		r.Events = append(r.Events, ev)
+	}
+	return err
+}
+
 func (t *tracedApp) curFile() string {
 	_, id := t.inner.CurrApp()
 	return filepath.Join(t.log, fmt.Sprintf("%08d.%s", id, t.ext))
